@@ -44,6 +44,9 @@ type storeWorld struct {
 	desc   []string
 	ginErr *bytes.Buffer
 	nrun   int
+
+	concurrentPulls bool
+	staleDigests    map[string]bool
 }
 
 var (
@@ -93,7 +96,7 @@ func storeEnsureKey() {
 func newStoreWorld(t *testing.T, sim *verifsim.Sim, prop string) *storeWorld {
 	storeEnsureKey()
 	storeRunSeq++
-	w := &storeWorld{t: t, prop: prop, sim: sim}
+	w := &storeWorld{t: t, prop: prop, sim: sim, staleDigests: map[string]bool{}}
 	w.dir = filepath.Join(verifScratch(), "store", "run"+strconv.Itoa(storeRunSeq), "models")
 	os.RemoveAll(filepath.Dir(w.dir))
 	if err := os.MkdirAll(w.dir, 0o755); err != nil {
@@ -105,10 +108,8 @@ func newStoreWorld(t *testing.T, sim *verifsim.Sim, prop string) *storeWorld {
 	http.DefaultTransport = w.reg
 	w.ctl = &vfs.Control{Roots: []string{w.dir}, CrashAt: -1, LogCap: 300}
 	vfs.Ctl = w.ctl
-	w.ginErr = &bytes.Buffer{}
 	gin.SetMode(gin.TestMode)
 	gin.DefaultWriter = io.Discard
-	gin.DefaultErrorWriter = w.ginErr
 	w.freshProcess()
 	return w
 }
@@ -118,6 +119,11 @@ func (w *storeWorld) freshProcess() {
 	blobDownloadManager = sync.Map{}
 	blobUploadManager = sync.Map{}
 	intermediateBlobs = make(map[string]string)
+	// gin's recovery middleware captures DefaultErrorWriter when the router is
+	// built: one buffer per process incarnation, so that goroutines of a dead
+	// incarnation unwinding through gin never show up in the live one
+	w.ginErr = &bytes.Buffer{}
+	gin.DefaultErrorWriter = w.ginErr
 	s := &Server{}
 	h, err := s.GenerateRoutes(nil)
 	if err != nil {
@@ -311,6 +317,7 @@ type auditProblem struct {
 	name   string
 	kind   string // layer-missing | layer-corrupt | layer-size
 	detail string
+	digest string
 }
 
 // audit: every name that resolves to a readable manifest has all its layers
@@ -334,11 +341,11 @@ func (s *storeSnapshot) audit(checkSize bool) []auditProblem {
 			sum, ok := s.blobs[fn]
 			switch {
 			case !ok:
-				out = append(out, auditProblem{n, "layer-missing", fmt.Sprintf("%s names layer %s which is not in the blob store", n, shortDigest(l.Digest))})
+				out = append(out, auditProblem{n, "layer-missing", fmt.Sprintf("%s names layer %s which is not in the blob store", n, shortDigest(l.Digest)), l.Digest})
 			case "sha256:"+sum != l.Digest:
-				out = append(out, auditProblem{n, "layer-corrupt", fmt.Sprintf("%s names layer %s but the blob file has content sha256:%s (%d bytes)", n, shortDigest(l.Digest), sum[:12], s.sizes[fn])})
+				out = append(out, auditProblem{n, "layer-corrupt", fmt.Sprintf("%s names layer %s but the blob file has content sha256:%s (%d bytes)", n, shortDigest(l.Digest), sum[:12], s.sizes[fn]), l.Digest})
 			case checkSize && s.sizes[fn] != l.Size:
-				out = append(out, auditProblem{n, "layer-size", fmt.Sprintf("%s names layer %s with size %d but the blob file has %d bytes", n, shortDigest(l.Digest), l.Size, s.sizes[fn])})
+				out = append(out, auditProblem{n, "layer-size", fmt.Sprintf("%s names layer %s with size %d but the blob file has %d bytes", n, shortDigest(l.Digest), l.Size, s.sizes[fn]), l.Digest})
 			}
 		}
 	}
@@ -365,6 +372,19 @@ func (s *storeSnapshot) referenced() map[string]bool {
 	return ref
 }
 
+// onlyReferenced returns the snapshot without blob files that no readable manifest references.
+func (s *storeSnapshot) onlyReferenced() *storeSnapshot {
+	ref := s.referenced()
+	out := &storeSnapshot{manifests: s.manifests, unread: s.unread, blobs: map[string]string{}, sizes: map[string]int64{}}
+	for f, sum := range s.blobs {
+		if ref[f] {
+			out.blobs[f] = sum
+			out.sizes[f] = s.sizes[f]
+		}
+	}
+	return out
+}
+
 // restart runs the repository's own start-up sequence (sliced out of Serve by
 // the instrumenter) in a fresh "process". Must run in a task.
 func (w *storeWorld) restart() error {
@@ -377,7 +397,12 @@ func manifestKey(m *Manifest) string {
 	var sb strings.Builder
 	fmt.Fprintf(&sb, "v%d|%s|cfg=%s/%s/%d", m.SchemaVersion, m.MediaType, m.Config.MediaType, m.Config.Digest, m.Config.Size)
 	for _, l := range m.Layers {
-		fmt.Fprintf(&sb, "|%s/%s/%d/%s", l.MediaType, l.Digest, l.Size, l.From)
+		from := l.From
+		if filepath.IsAbs(from) {
+			// an absolute path below this run's models directory
+			from = "$MODELS/blobs/" + filepath.Base(from)
+		}
+		fmt.Fprintf(&sb, "|%s/%s/%d/%s", l.MediaType, l.Digest, l.Size, from)
 	}
 	return sb.String()
 }
